@@ -429,6 +429,12 @@ def gen_snmp(g):
     g.add("b509-keyword", "pysnmp.hlapi.UsmUserData", [], [("userName", "'user'"), ("authKey", "'authkey1'"), ("privKey", "'privkey1'")], {"B509": None},
           note="authPriv, everything by keyword")
     g.add("b509", "pysnmp.hlapi.UsmUserData", ["{[1]}"], [], {"B509": mh}, note="set-of-list argument (not evaluated)")
+    # keys given as expressions bandit cannot reduce: the decision is about WHICH arguments are passed, not about their values
+    # (seeded change C15-m3 asked check_call_arg_value(...) is not None, which is None for such values too)
+    for val in ("os.environ['K']", "os.getenv('K')", "get_key()", "KEYS[0]", "cfg.key", "key", "b'raw'", "f'{k}'", "a or b"):
+        g.add("b509-keyword", "pysnmp.hlapi.UsmUserData", ["'user'"], [("authKey", val), ("privKey", val)], {"B509": None}, extra_prelude="import os\n", note=f"authPriv keyword values {val}")
+        g.add("b509-keyword", "pysnmp.hlapi.UsmUserData", ["'user'", val], [("privKey", "'p'")], {"B509": None}, extra_prelude="import os\n", note=f"positional auth {val}")
+        g.add("b509", "pysnmp.hlapi.UsmUserData", ["'user'"], [("authKey", val)], {"B509": mh}, extra_prelude="import os\n", note=f"authNoPriv keyword value {val}")
 
 
 ODD_CFGS = [
